@@ -31,6 +31,9 @@ CHECKS = {
  "C17": dict(cat="exploration", tech="differential runtime monitor: generated valid Ninja manifest trees loaded by llbuild (ASan/UBSan) vs the installed ninja 1.11.1 and a reference evaluator written from the manual; shell-quoting round trip through /bin/sh",
              text="Every build statement of every generated manifest tree (scoping, lazy rule variables, escapes, continuations incl. CR LF, include/subninja to depth 3 with shadowing and parent rules, keyword-like identifiers, all bytes 0x80..0xFF, hostile path alphabets) must have the outputs, three input classes, rule, expanded command, description, deps/depfile, pool, flags, rspfile and rspfile_content that ninja shows or, where ninja shows nothing, the reference computes; every quoted path and random byte strings must read back unchanged through /bin/sh -c 'printf %s <escaped>'.",
              note="Only valid manifests inside the property's premises; `default` statements are not build statements and are written literally and not judged; quoting of $in/$out in description and rspfile_content is not judged; ninja-vs-reference disagreements are discarded and counted.", ref="4/C17"),
+ "C18": dict(cat="exploration", tech="runtime monitor over real `llbuild ninja build` runs on generated manifests of one deterministic helper command: contents predicted in Python, clean builds by the installed ninja 1.11.1 as second oracle, the commands' own run log (start/end records), exit status; ASan/UBSan, TSan -j4 subset",
+             text="Generated Ninja manifests (explicit/implicit/order-only inputs, multiple outputs, phony aliases, depfile + deps=gcc, restat, generator, pools, default) x histories of 4..12 steps {forward-mtime source edits, header edits, output deletion, manifest edits, build default/named targets, failure rounds; -k 1 and -k 0}, -j1/-j4, --db/--no-db, new process per build: outputs equal predicted clean-build bytes, immediate rebuild runs nothing, order-only changes do not re-run and producers finish before consumers start, changed command lines re-run, failing commands block dependents, exit non-zero, are retried and converge after repair.",
+             note="Edits move mtimes forward (update-if-newer is a documented Ninja-compatible comparison); not judged: immediate rebuilds with --no-db, generator statements whose command line changed, restat pruning; two known findings (order-only producer failure with -k 0; dependency newly declared without a command-line change) are listed in known-findings.json.", ref="4/C18"),
  "C20": dict(cat="exploration", tech="differential runtime monitor: same generated histories through core.h and through the C++ engine interface, traces compared event by event",
              text="Each history runs once through BuildEngine/Rule/Task and once only through llb_buildengine_*/llb_task_*; per-build traces on the shared vocabulary must be identical, both runs are monitored (M-proto/M-value/M-justify) and the DB written via the C interface is read back independently.",
              note="Single-use requests, prior values, run reasons and rule signatures do not exist in the C interface; db.h and Swift bindings not covered.", ref="4/C20"),
